@@ -273,6 +273,78 @@ def normalise(tree, relpath):
                         if ft in refcmp:
                             n.left, n.ops, n.comparators = n.comparators[0], [_FLIP[type(n.ops[0])]()], [n.left]
                             done.append('%s:%s `%s` read as `%s`' % (relpath, key, t, ft))
+        # early-exit `if` vs if/else, as on the reference tree
+        want = ref[key].get('jif', {})
+        if want:
+            done.extend('%s:%s %s' % (relpath, key, x) for x in _restyle(fn, want))
+    return done
+
+
+_JUMPS = (ast.Return, ast.Raise, ast.Continue, ast.Break)
+
+
+def _blocks(fn):
+    """Statement lists of a function (nested scopes not entered), outermost first."""
+    out = []
+
+    def rec(stmts):
+        out.append(stmts)
+        for s in stmts:
+            if isinstance(s, _SCOPES):
+                continue
+            for f in ('body', 'orelse', 'finalbody'):
+                b = getattr(s, f, None)
+                if isinstance(b, list) and b and isinstance(b[0], ast.stmt):
+                    rec(b)
+            for h in getattr(s, 'handlers', []) or []:
+                rec(h.body)
+    rec(fn.body)
+    return out
+
+
+def _jump_ifs(fn):
+    """[(key, if node, style, block, index)] for every `if` whose body ends in return/raise/continue/break and which is
+    either followed by more statements and has no else ('A': early exit) or has a plain else ('B')."""
+    seen = {}
+    out = []
+    for blk in _blocks(fn):
+        for i, s in enumerate(blk):
+            if not (isinstance(s, ast.If) and s.body and isinstance(s.body[-1], _JUMPS)):
+                continue
+            if not s.orelse and i + 1 < len(blk):
+                style = 'A'
+            elif s.orelse:
+                style = 'B'
+            else:
+                continue
+            t = _text(s.test)
+            seen[t] = seen.get(t, 0) + 1
+            out.append(('%s#%d' % (t, seen[t]), s, style, blk, i))
+    return out
+
+
+def _restyle(fn, want):
+    """Bring early-exit ifs into the reference style.  Both directions keep behaviour: the body always jumps away, so
+    the statements after the `if` run exactly when its test is false."""
+    done = []
+    for _ in range(200):
+        changed = False
+        for key, s, style, blk, i in _jump_ifs(fn):
+            w = want.get(key)
+            if w is None or w == style:
+                continue
+            if style == 'A':      # if c: ...jump; rest   ->   if c: ...jump else: rest
+                s.orelse = blk[i + 1:]
+                del blk[i + 1:]
+            else:                 # if c: ...jump else: rest   ->   if c: ...jump; rest
+                rest = s.orelse
+                s.orelse = []
+                blk[i + 1:i + 1] = rest
+            done.append('`if %s` read as %s' % (key.split('#')[0][:50], 'if/else' if w == 'B' else 'early exit'))
+            changed = True
+            break
+        if not changed:
+            break
     return done
 
 
@@ -321,8 +393,9 @@ def generate(repo):
             for key, fn in functions(tree):
                 fps = fingerprints(fn)
                 cmps = sorted(set(_text(n) for n in _own(fn) if _flippable(n)))
-                if fps or cmps:
-                    ent[key] = {'locals': fps, 'cmp': cmps}
+                jif = dict((k, style) for k, n_, style, b_, i_ in _jump_ifs(fn))
+                if fps or cmps or jif:
+                    ent[key] = {'locals': fps, 'cmp': cmps, 'jif': jif}
             if ent:
                 out[rel] = ent
     return out
